@@ -395,6 +395,15 @@ enum Name {
     Namespace(FileOrLib, Span),
 }
 
+/// Parentheses don't mean anything - `(fn do end)` is as much a function as `fn do end`.
+fn without_parenthesis(expr: &ParserExpression) -> &ParserExpression {
+    let mut expr = expr;
+    while let sylt_parser::ExpressionKind::Parenthesis(inner) = &expr.kind {
+        expr = inner;
+    }
+    expr
+}
+
 struct Resolver {
     namespaces: HashMap<FileOrLib, HashMap<String, Name>>,
     stack: Vec<(String, Ref)>,
@@ -870,7 +879,7 @@ impl Resolver {
                 );
                 for (name, field) in parser_fields.iter() {
                     let ss = self.stack.len();
-                    if matches!(field.kind, EK::Function { .. }) {
+                    if matches!(without_parenthesis(field).kind, EK::Function { .. }) {
                         self.stack.push(("self".to_string(), self_var));
                     }
                     fields.push((name.clone(), self.expression(field)?));
@@ -948,7 +957,10 @@ impl Resolver {
                     self.stack.clear();
                     let var = self.lookup(&ident.name, span)?;
                     (value, var)
-                } else if matches!(value.kind, sylt_parser::ExpressionKind::Function { .. }) {
+                } else if matches!(
+                    without_parenthesis(value).kind,
+                    sylt_parser::ExpressionKind::Function { .. }
+                ) {
                     // Function, push the var before!
                     let var = self.push_var(ident, *kind);
                     let value = self.expression(value)?;
